@@ -248,6 +248,8 @@ Record sortcase := {
   (* recorded from the implementation *)
   o_err : option string;                   (* exception class name, if any *)
   o_sched : list Q;                        (* schedule[station k][0] for every station *)
+  o_rows : list (list Q);                  (* the WHOLE emitted schedule: schedule[station k] for every station *)
+  o_has_store : bool;                      (* false: the estimator is not a SimpleRampdown, no store to compare *)
   o_pre : list (Z * list Q * list Q);      (* run_preprocessing output: session id, min_rates, max_rates *)
   o_order : list Z;                        (* session ids in the order returned by the sort function *)
   o_store : list (Z * Q)                   (* estimator.upper_bounds after the call *)
@@ -270,19 +272,22 @@ Definition store_close (m i : list (Z * Q)) : bool :=
   Nat.eqb (List.length m) (List.length i)
   && forallb (fun kv => match zassoc (fst kv) m with Some v => Qclose v (snd kv) | None => false end) i.
 
-Definition result_close (r : res (list Q)) (err : option string) (sched : list Q) : bool :=
+(* run_postprocessing = format_array_schedule: station k |-> [array[k]], exactly one period per station *)
+Definition format_rows (v : list Q) : list (list Q) := map (fun x => [x]) v.
+
+Definition result_close (r : res (list Q)) (err : option string) (sched : list Q) (rows : list (list Q)) : bool :=
   match r, err with
-  | Ok v, None => Qlist_close v sched
+  | Ok v, None => Qlist_close v sched && forall2b Qlist_close (format_rows v) rows
   | Err e, Some e' => String.eqb e e'
   | _, _ => false
   end.
 
 Definition check_sorted (c : sortcase) : bool :=
   let o := schedule_exec (k_infra c) (k_cfg c) (k_sessions c) in
-  result_close (so_result o) (o_err c) (o_sched c)
+  result_close (so_result o) (o_err c) (o_sched c) (o_rows c)
   && forall2b pre_close (so_pre o) (o_pre c)
   && list_eqb Z.eqb (map s_id (so_order o)) (o_order c)
-  && store_close (so_store o) (o_store c).
+  && (negb (o_has_store c) || store_close (so_store o) (o_store c)).
 
 (* UncontrolledCharging *)
 Record unccase := {
